@@ -17,7 +17,7 @@
    [s_H] / [s_FH] = entries of H / F+H, [s_regularization_term = sum_{i,j in reg} s_i H_ij s_j],
    [s_log_evidence = -(chi2 + s^T H s + ln det (F+H)|reg - ln det H|reg + norm)/2]. *)
 From Coq Require Import ZArith QArith Reals List Bool.
-From PAV Require Import Base.NumOps Base.Res Gen.Gen_fit Model.C08 Model.C08x Proofs.C08 Proofs.C08x.
+From PAV Require Import Base.NumOps Base.Res Base.Sum Gen.Gen_fit Model.C08 Model.C08x Proofs.C08 Proofs.C08x.
 Import ListNotations.
 
 (* ---- tie to the code: the three composition formulas are GENERATED from fit_util.py; over the reals they are
@@ -285,6 +285,40 @@ Theorem C08_interferometer_is_real_fit_on_components : forall (lnf : R -> R) (tp
   vfit_figure_of_merit tp v = fit_figure_of_merit tp (real_fit_of v).
 Proof. exact interferometer_is_real_fit_on_components. Qed.
 
+(* ---- preloads (inversion/abstract.py): absent, or carrying the true regularization matrix / log-determinant, they change nothing
+        (every NumOps) ... *)
+Theorem C08_preloads_absent_or_consistent : forall (O : NumOps) (p : pre (T O)) (iv : inv (T O)),
+  (pre_H p = None \/ pre_H p = Some (regularization_matrix iv)) ->
+  (pre_ldr p = None \/ pre_ldr p = Some (logdet (regularization_matrix_reduced iv))) ->
+  p_regularization_matrix p iv = regularization_matrix iv /\
+  p_curvature_reg_matrix p iv = curvature_reg_matrix iv /\
+  p_regularization_matrix_reduced p iv = regularization_matrix_reduced iv /\
+  p_curvature_reg_matrix_reduced p iv = curvature_reg_matrix_reduced iv /\
+  p_regularization_term p iv = regularization_term iv /\
+  p_log_det_curvature_reg_matrix_term p iv = log_det_curvature_reg_matrix_term iv /\
+  p_log_det_regularization_matrix_term p iv = log_det_regularization_matrix_term iv.
+Proof. exact @preloads_absent_or_consistent. Qed.
+(* ... and ANY preloaded matrix H' of the right size is used consistently: both reduced matrices are the restrictions of H' and
+   F + H' to the regularized parameters, the curvature log-determinant is taken of the restricted F + H', a preloaded
+   log-determinant stands for ln det of the restricted H' only, and the regularization term is the quadratic form of H' *)
+Theorem C08_preloaded_terms_are_restricted : forall (O : NumOps) (p : pre (T O)) (iv : inv (T O)),
+  inv_okb iv = true -> pre_okb p iv = true ->
+  p_regularization_matrix_reduced p iv = tabulate (s_H_eff p iv) (reg_indices (objs iv)) /\
+  p_curvature_reg_matrix_reduced p iv = tabulate (s_FH_eff p iv) (reg_indices (objs iv)) /\
+  p_log_det_curvature_reg_matrix_term p iv =
+    (if has_reg (objs iv) then lnT O (det (tabulate (s_FH_eff p iv) (reg_indices (objs iv)))) else zero) /\
+  p_log_det_regularization_matrix_term p iv =
+    (if has_reg (objs iv)
+     then match pre_ldr p with Some v => v | None => lnT O (det (tabulate (s_H_eff p iv) (reg_indices (objs iv)))) end
+     else zero).
+Proof. exact @preloaded_terms_are_restricted. Qed.
+Theorem C08_preloaded_regularization_term : forall (lnf : R -> R) (p : pre (T (RL lnf))) (iv : inv (T (RL lnf))),
+  inv_okb iv = true -> pre_okb p iv = true ->
+  p_regularization_term p iv =
+  sumR (map (fun i => sumR (map (fun j => (at_ (recon iv) i * s_H_eff p iv i j * at_ (recon iv) j)%R) (reg_indices (objs iv))))
+            (reg_indices (objs iv))).
+Proof. exact p_regularization_term_is_spec. Qed.
+
 (* ---- non-vacuity of the phase-3 hypotheses *)
 (* a slim 2-pixel fit with the covariance C = [[1 1] [1 2]], C^-1 = [[2 -1] [-1 1]], residual (2, -1), x = (5, -3): chi-squared 13 *)
 Example C08_hyps_satisfiable_covariance :
@@ -308,6 +342,11 @@ Example C08_hyps_satisfiable_interferometer :
   vfit_okb (ex_vfit (RL ln) true) = true /\ vfit_okb (ex_vfit (RL ln) false) = true /\
   length (vdata (ex_vfit (RL ln) true)) = 3%nat.
 Proof. exact ex_vis_hyps_R. Qed.
+(* a preloaded regularization matrix that differs from the assembled one (and a preloaded log-determinant) *)
+Example C08_hyps_satisfiable_preloads :
+  inv_okb (ex_inv (RL ln)) = true /\ pre_okb (ex_pre (RL ln)) (ex_inv (RL ln)) = true /\
+  p_regularization_matrix (ex_pre (RL ln)) (ex_inv (RL ln)) <> regularization_matrix (ex_inv (RL ln)).
+Proof. exact ex_pre_hyps. Qed.
 (* the values the model computes on those inputs (rational execution): covariance chi-squared 13 (= r . x above) against the
    uncorrelated 4 + 1/4; interferometer chi-squared (1 + 1/4) + (1 + 0) + (0 + 4) = 25/4 whatever use_mask_in_fit is;
    signal to noise of the visibility (-3, 0) with noise (2, 2): (0, 0); of (0, -1) with noise (4, 1): (0, 0) *)
@@ -370,3 +409,5 @@ Print Assumptions C08_util_residual_flux_fraction. Print Assumptions C08_covaria
 Print Assumptions C08_covariance_is_inverse_form. Print Assumptions C08_covariance_diagonal_is_plain.
 Print Assumptions C08_covariance_fit_statistics. Print Assumptions C08_composition_on_any_chi_squared.
 Print Assumptions C08_interferometer_definitions. Print Assumptions C08_interferometer_is_real_fit_on_components.
+Print Assumptions C08_preloads_absent_or_consistent. Print Assumptions C08_preloaded_terms_are_restricted.
+Print Assumptions C08_preloaded_regularization_term.
